@@ -11,7 +11,10 @@ table of `API.configure`, `parseReady`/`generateOutcome` = target readiness) is 
   C  base tree in a file x override subsets given as dict / `-o` / environment;
   D  the decision table: every file state x suffix x content class x options class;
   E  random structural / type corruptions of valid trees;
-  F  every subset of generator sections x requested targets x declaration kinds x clean.
+  F  every subset of generator sections x requested targets x declaration kinds x clean;
+  G  edge texts: every free-text setting of the live schema (type string without pattern/format/enumeration, and lists of
+     such) x every edge text (empty, blank, texts that read as number / boolean / null / JSON, texts containing the separators
+     of the spellings) x every source spelling, the edge-valued leaves always travelling through the spelling under test.
 
 Observations: how the call ended (exception class), `model_dump()`, `generate.model_fields_set`, and the dict that reached
 validation (recorded by a stand-in around `model_validate`). pydantic's verdict is the `validate` parameter of the model: the
@@ -39,6 +42,8 @@ THEOREMS = [_T + n for n in [
     "combine_lookup", "merge_override", "merge_keeps", "merge_wf", "combine_nil_right",
     "assign_wins", "assign_keeps", "foldOptions_append", "options_last_wins", "options_last_keeps", "foldOptions_refused_iff",
     "fold_leaves_eq", "parseOption_render", "envPath_render", "sources_equivalent", "configure_sources_equivalent",
+    "envTreeWith_pinned", "env_source_verbatim", "envSafe_any_value", "optSafeVal_text",
+    "ignoreEmpty_drops", "noneText_rewrites", "ignoreEmpty_breaks_equivalence",
     "explicit_over_env", "env_fills_in",
     "configure_fails_cleanly_partial", "configure_nonStringKey_counterexample", "configure_missing_first", "configure_ok_is_merge",
     "parse_unready_refused", "parse_without_generate_refused", "generate_unready_refused", "generate_unconfigured_refused",
@@ -108,6 +113,10 @@ def liveCaseSensitive : Bool := {'true' if mc.get('case_sensitive') else 'false'
 def liveExtraTop : String := {lean_str(str(mc.get('extra')))}
 def liveRequired : List (String × List String) := {lean_list(f'({lean_str(g)}, {lean_list(lean_str(r) for r in rs)})' for g, rs in required)}
 def liveCases : List String := {lean_list(lean_str(c) for c in cases)}
+def liveEnvKnobs : EnvKnobs := ⟨{'true' if mc.get('env_ignore_empty') else 'false'}, {('some ' + lean_str(str(mc.get('env_parse_none_str')))) if mc.get('env_parse_none_str') is not None else 'none'}⟩
+def liveEnvOtherKnobs : List (String × String) := {lean_list(f'({lean_str(k)}, {lean_str(str(mc.get(k)))})' for k in ('env_parse_enums', 'env_nested_max_split', 'nested_model_default_partial_update'))}
+def liveEdgeTexts : List (String × Bool) := {lean_list(f'({lean_str(t)}, {"true" if cfgsys.opt_text(t) is not None else "false"})' for t in cfgsys.EDGE_TEXTS)}
+def liveFreeTextKeys : List String := {lean_list(lean_str(k) for k in sorted({k for p in cfgsys.free_text_paths() for k in p if k != '[]'}))}
 def liveIdentifierDefaults : List (String × String × String) := {lean_list(f'({lean_str(g)}, {lean_str(k)}, {lean_str(str(v))})' for g, k, v in ident_defaults)}
 
 theorem targets_table : liveTargets = targetTable := by decide
@@ -121,6 +130,13 @@ theorem top_level_extra_forbidden : liveExtraTop = "forbid" := by decide
 theorem out_required : liveRequired.all (fun p => p.2.contains "out") = true := by decide
 /-- the defaults of the identifier styles are members of the style enumeration -/
 theorem identifier_defaults_valid : liveIdentifierDefaults.all (fun p => liveCases.contains p.2.2) = true := by decide
+/-- the environment source of the live settings model drops or rewrites no variable because of its text (`envTreeWith_pinned`) -/
+theorem env_values_verbatim : liveEnvKnobs = pinnedKnobs ∧ liveEnvOtherKnobs.all (fun p => p.2 == "None" || p.2 == "False") = true := by decide
+/-- the harness writes an `-o` spelling for exactly the edge texts for which the model says there is one; there are free-text
+settings, and the empty text is among the edge texts -/
+theorem edge_texts_spellable : liveEdgeTexts.all (fun p => optSafeVal (.str p.1) == p.2) = true
+    ∧ (liveEdgeTexts.map (·.1)).contains "" = true ∧ liveFreeTextKeys.isEmpty = false
+    ∧ liveFreeTextKeys.all (fun k => envSafeKey k.toList) = true := by decide +kernel
 /-- every key of the live settings schema satisfies the hypotheses of `sources_equivalent` on keys -/
 theorem keys_spellable : liveKeys.all (fun k => envSafeKey k.toList && !k.toList.contains '.' && !k.toList.contains '=') = true := by decide +kernel
 """
@@ -128,7 +144,7 @@ theorem keys_spellable : liveKeys.all (fun k => envSafeKey k.toList && !k.toList
 
 
 OBLIGATIONS = ["targets_table", "sections_table", "generator_sections", "cpp_readers", "env_prefix", "env_delimiter",
-               "top_level_extra_forbidden", "out_required", "identifier_defaults_valid", "keys_spellable"]
+               "top_level_extra_forbidden", "out_required", "identifier_defaults_valid", "keys_spellable", "env_values_verbatim", "edge_texts_spellable"]
 
 
 # --------------------------------------------------------------------------------------------
@@ -346,7 +362,7 @@ def build_plan(ctx) -> Plan:
     for i in range(ctx.n(110, 900)):
         r = random.Random(f"{seed}/c17/B/{i}")
         plain = i % 4 != 3
-        tree = cfgsys.TreeGen(r, p_optional=r.choice([0.15, 0.35, 0.6]), plain=plain).tree()
+        tree = cfgsys.TreeGen(r, p_optional=r.choice([0.15, 0.35, 0.6]), plain=plain, p_edge=0.3).tree()
         add_entry(P, {"part": "B", "tree": tree, "plain": plain, "rseed": f"{seed}/c17/B/{i}/v"}, f"B/{i}")
 
     # ---- C: file + override subsets -------------------------------------------------------------------------
@@ -354,7 +370,7 @@ def build_plan(ctx) -> Plan:
         r = random.Random(f"{seed}/c17/C/{i}")
         gen_keys = list(cfgsys.minimal_sections().keys())
         gens = [g for g in gen_keys if r.random() < 0.35] or [r.choice(gen_keys)]
-        tg = cfgsys.TreeGen(r, p_optional=r.choice([0.3, 0.6]), plain=True)
+        tg = cfgsys.TreeGen(r, p_optional=r.choice([0.3, 0.6]), plain=True, p_edge=0.3)
         base = {"generate": tg.generate_section(gens)}
         other = {"generate": tg.generate_section(gens + ([r.choice(gen_keys)] if r.random() < 0.3 else []))}
         over = cfgsys.from_leaves([l for l in cfgsys.leaves(other) if r.random() < r.choice([0.2, 0.5, 0.9])])
@@ -389,6 +405,21 @@ def build_plan(ctx) -> Plan:
         tree = cfgsys.TreeGen(r, p_optional=0.3, plain=True).tree()
         for kind, bad in corruptions(r, tree):
             add_entry(P, {"part": "E", "corruption": kind, "tree": bad, "source": r.choice(["dict", "dict", "yaml", "json", "toml", "opts"])}, f"E/{i}/{kind}")
+
+    # ---- G: edge texts in every free-text setting x every spelling --------------------------------------------
+    K = len(cfgsys.EDGE_TEXTS)
+    for ui, unit in enumerate(cfgsys.edge_units()):
+        for t in range(K):
+            r = random.Random(f"{seed}/c17/G/{ui}/{t}")
+            tree, marked = cfgsys.edge_tree(r, unit, t)
+            add_entry(P, {"part": "G", "tree": tree, "edge": [list(p) for p in marked]}, f"G/{'.'.join(unit[0])}/{t}")
+        if not ctx.quick:   # one edge-valued setting at a time
+            n_sites = len(cfgsys.edge_tree(random.Random(0), unit, 0)[1])
+            for j in range(n_sites):
+                for t in range(K):
+                    r = random.Random(f"{seed}/c17/G1/{ui}/{j}/{t}")
+                    tree, marked = cfgsys.edge_tree(r, unit, (t - j) % K, only=j)
+                    add_entry(P, {"part": "G", "tree": tree, "edge": [list(p) for p in marked]}, f"G1/{'.'.join(unit[0])}/{j}/{t}")
 
     # ---- F: readiness lattice --------------------------------------------------------------------------------
     gen_keys = list(cfgsys.minimal_sections().keys())
@@ -465,6 +496,38 @@ def add_entry(P: Plan, e: dict, label: str):
                 vs.append(("env-only", {"env": envall}))
         for name, case in vs:
             it["variants"].append({"name": name, "case": case, "job": P.job("configure", case), "req": P.req(model_request(case))})
+    elif part == "G":
+        tree = e["tree"]
+        edge = {tuple(p) for p in e["edge"]}
+        ls = cfgsys.leaves(tree)
+
+        def split(pred):
+            """(leaves that travel through the spelling under test, the rest): the edge-valued leaves the spelling can express;
+            never everything, because `configure` wants a file or options"""
+            a = [l for l in ls if l[0] in edge and pred(l)]
+            b = [l for l in ls if l not in a]
+            if not b and a:
+                b = [a.pop()]
+            return cfgsys.from_leaves(a), cfgsys.from_leaves(b)
+        vs = [("dict", {"options": tree})]
+        for fmt, _ in FORMATS:
+            vs.append((fmt, {"file": file_of(tree, fmt), "positional_only": True}))
+        a, b = split(lambda l: cfgsys.opt_text(l[1]) is not None)
+        if a:
+            vs.append(("file+opts", {"file": file_of(b, "json"), "cli_opts": cfgsys.to_opts(a)}))
+        a, b = split(lambda l: cfgsys.env_text(l[1]) is not None and len(l[0]) >= 2)
+        if a:
+            vs.append(("env+dict", {"options": b, "env": cfgsys.to_env(a)}))
+            vs.append(("ENV+file", {"file": file_of(b, "toml"), "env": cfgsys.to_env(a, upper=True), "positional_only": True}))
+        a, b = split(lambda l: len(l[0]) >= 2 and cfgsys.dotenv_ok(l[1]))
+        if a:
+            vs.append(("dotenv+dict", {"options": b, "dotenv": cfgsys.to_dotenv(a), "dotenv_vars": cfgsys.to_env(a)}))
+            la = cfgsys.leaves(a)
+            a1, a2 = cfgsys.from_leaves(la[0::2]), cfgsys.from_leaves(la[1::2])
+            if a1 and a2:
+                vs.append(("env+dotenv+dict", {"options": b, "env": cfgsys.to_env(a1), "dotenv": cfgsys.to_dotenv(a2), "dotenv_vars": cfgsys.to_env(a2)}))
+        for name, case in vs:
+            it["variants"].append({"name": name, "case": case, "job": P.job("configure", case), "req": P.req(model_request(case))})
     elif part == "C":
         base, over, fmt = e["base"], e["over"], e["fmt"]
         f = file_of(base, fmt)
@@ -509,11 +572,13 @@ def add_entry(P: Plan, e: dict, label: str):
 def run(ctx):
     ctx.coverage["rule"] = ("A: distinct option lists; B: distinct (tree, spelling); C: distinct (base, override, spelling); D: every (file state, options class); "
                             "E: distinct (tree, corruption, source); F: distinct (generator subset, declaration kinds) x 7 target names x clean; "
+                            "G: distinct (unit tree with an edge text in every free-text setting, spelling), all rotations = every (free-text setting, edge text) pair; "
                             "non-trivial = more than one option / more than the required keys / a non-empty override / a non-default file state / >= 1 generator section")
     ctx.assumptions += [
         "pydantic validation and the YAML/JSON/TOML decoders are parameters of the model; the harness uses the same libraries as oracle",
         "an empty list and a text that is itself bracketed have no `-o` spelling; an empty dict has no `-o`/environment spelling (hypotheses of sources_equivalent)",
         "environment variables are only compared for names below the sections generate/build/package (others are ignored by pydantic-settings)",
+        "`.env` lines are written single-quoted: texts with a quote, a line break, a backslash or `${` are not given through the `.env` file",
     ]
     cfgsys.register("cliopts", lambda base, case: cfgsys.cli_options(case["args"]))
 
@@ -714,6 +779,9 @@ def evaluate(ctx, it, results, answers, orc, targets, breaks, spec):
         if part == "B":
             nt = len(cfgsys.leaves(e["tree"])) > 3
             key = ("B", cfgsys.canon(e["tree"]), v["name"])
+        elif part == "G":
+            nt = bool(e["edge"])
+            key = ("G", cfgsys.canon(e["tree"]), v["name"])
         elif part == "C":
             nt = bool(e["over"])
             key = ("C", cfgsys.canon([e["base"], e["over"]]), v["name"])
@@ -744,7 +812,7 @@ def evaluate(ctx, it, results, answers, orc, targets, breaks, spec):
         elif o["kind"] == "app" and o["code"] == 2 and not (case.get("file") or {}).get("missing"):
             fail("config:file-not-found-misreported", "file-not-found (2) reported although the file exists", {"variant": v["name"], "case": case, "impl": brief(o)})
 
-    if part == "B":
+    if part in ("B", "G"):
         ref = obs[0]
         if ref["kind"] != "ok":
             fail("sources:valid-tree-refused", "a tree generated from the schema was refused as options dict", {"impl": brief(ref)})
